@@ -401,7 +401,7 @@ def judge(case, results):
         return out
     font = case["meta"]["font"]
     if final["rc"] != 0 and ref["rc"] != 0:
-        out.append({"class": "discard", "detail": {}})
+        out.append({"class": "discard", "detail": {"tail": (ref.get("steps_tail") or ref.get("driver_tail") or "")[-500:]}})
         return out
     stale = [a for n in final.get("ninja", []) for a in n.get("anomalies", []) if a["k"] == "stale.clean_but_changed"]
     causes = sorted({"leaf-input-backdated" if (a["leaf"] and a["backdated"] and a["declared"]) else
